@@ -474,9 +474,10 @@ def plan(tier, seed):
             jobs.append(("graph", "ci", "4keys-" + f, graph_job("c17_g_ci_4k_%s" % f, cls="ci", steps=3, pairs=1, setvals=("i1", "llist"),
                                                                 keys=KEYS_CI | {"classes", "Classes"}, factories=(f,))))
         jobs.append(("graph", "dod", "h4p1", graph_job("c17_g_dod", cls="dod", steps=4, pairs=1, setvals=("i1", "list", "ldict", "llist"))))
-        for f in ("None", "Dict"):
-            jobs.append(("graph", "ci", "mixed-h3p1-" + f, graph_job("c17_g_ci_mixed_%s" % f, cls="ci", steps=3, pairs=1, mixed=True,
-                                                                     setvals=("i1",), pairvals=("i2", "list"), factories=(f,))))
+        jobs.append(("graph", "ci", "mixed-h3p1-2keys", graph_job("c17_g_ci_mixed", cls="ci", steps=3, pairs=1, mixed=True,
+                                                                  keys={"a", "A", "b", "B"}, setvals=("i1",), pairvals=("i2", "list"))))
+        jobs.append(("graph", "ci", "mixed-h2p1", graph_job("c17_g_ci_mixed2", cls="ci", steps=2, pairs=1, mixed=True,
+                                                            setvals=("i1",), pairvals=("i2", "list"))))
         jobs.append(("graph", "dod", "mixed-h3p1", graph_job("c17_g_dod_mixed", cls="dod", steps=3, pairs=1, mixed=True,
                                                              setvals=("i1",), pairvals=("i2", "list"))))
         nw, nwd = 1000, 300
